@@ -6,11 +6,12 @@
                   conn <col> <col> | layer <name> <bottom> <centre> <top> | well <name> <x y z>…
                   setup | identify_neighbours | set_default_surface
   editing         the operations of mulgrid (see `step`)
-  observing       dump   (the whole state, canonical text)
+  observing       dump   (the whole state, canonical text) | inv   (the clauses of Model/GeoInv.lean)
   reply           `ok` / `ok <value>` / `exc <PythonExceptionName>` / `bad …`
   After an exception the state is the one before the operation (the harness ends the history there).
 -/
 import PyTough.Model.GeoOps
+import PyTough.Model.GeoInv
 import PyTough.Py.Proto
 open Py Model.Geo Model.Geo.Geo
 
@@ -167,7 +168,15 @@ def step (g : Geo) : List String → Except Exc (Geo × String)
     let (_, ok) ← g.check false
     pure (g, if ok then "True" else "False")
   | ["delete_orphans"] => do pure (← g.deleteOrphans, "")
+  | "unstable" :: "refine" :: mode :: cols => do
+    let b : Bisect := if mode = "t" then .longest else if mode = "x" then .x else if mode = "y" then .y else .no
+    pure (g, if g.refineUnstable (← cols.mapM (colId g)) b then "1" else "0")
+  | "unstable" :: "decompose" :: cols => do
+    pure (g, if g.decomposeUnstable (← cols.mapM (colId g)) then "1" else "0")
   | ["dump"] => .ok (g, dump g)
+  | ["inv"] =>
+    let b (x : Bool) := if x then "1" else "0"
+    .ok (g, s!"heap={b g.heapOK} registry={b g.registriesOK} node-columns={b g.nodeColsOK} column-connections={b g.colConsOK} neighbours={b g.nbrsOK} connection-nodes={b g.conNodesOK} orientation={b g.orientOK} num_layers={b g.layersOK} blocks={b g.blocksFresh} connections={b g.connsFresh} missing-connections={b g.noMissing} extra-connections={b g.noExtra} orphans={b g.noOrphans}")
   | _ => .error .generic
 
 partial def loop (i o : IO.FS.Stream) (g : Geo) : IO Unit := do
